@@ -438,6 +438,16 @@ func rarePayload(r *sim.Rng, tier string) (pl sim.Payload, dictCap int, ok bool)
 		return pl, 0, false
 	}
 	switch {
+	case r.Chance(1, 90):
+		// a chunk whose LZMA form is within a fraction of a percent of its raw
+		// form, on either side (where the writer decides between the two kinds
+		// of chunk): noise - which LZMA expands by about 1.4 % - behind a run
+		// that pays for 0.5 ... 3 % of it
+		n := r.Range(66000, 140000)
+		z := n / 200 * (1 << uint(r.Intn(3)))
+		z += r.Intn(z + 1)
+		return sim.Payload{Kind: "concat", Parts: []sim.Payload{{Kind: "run", N: z, A: r.Intn(256)}, {Kind: "prng", N: n, Seed: r.Uint64()}}},
+			sim.Pick(r, []int{1 << 16, 1 << 17, 1 << 20}), true
 	case r.Chance(1, 300):
 		return sim.Payload{Kind: "alpha", N: r.Range(70<<10, 140<<10), Seed: r.Uint64(), A: r.Range(200, 255)},
 			sim.Pick(r, []int{1 << 16, 1 << 17, 1 << 20}), true
